@@ -625,6 +625,10 @@ class SymExec:
             if isinstance(x, ast.Call) and isinstance(x.func, ast.Name) and x.func.id == 'enumerate' and \
                len(x.args) == 1 and not x.keywords:
                 return ast.Tuple(elts=[k, elem(x.args[0])], ctx=ast.Load())
+            if isinstance(x, ast.Call) and isinstance(x.func, ast.Name) and x.func.id == 'enumerate' and \
+               (len(x.args) == 2 or (len(x.args) == 1 and [kw.arg for kw in x.keywords] == ['start'])):
+                start = x.args[1] if len(x.args) == 2 else x.keywords[0].value
+                return ast.Tuple(elts=[ast.BinOp(left=start, op=ast.Add(), right=k), elem(x.args[0])], ctx=ast.Load())
             if isinstance(x, ast.Attribute) and x.attr == 'flat':
                 return ast.Subscript(value=x.value, slice=k, ctx=ast.Load())
             if isinstance(x, ast.Call) and (dotted(x.func) or '') in ('repeat', 'itertools.repeat') and len(x.args) == 1 \
@@ -662,22 +666,27 @@ class SymExec:
             return v
         classes = self.ctx.model.classes
 
-        def rec(n):
+        def rec(n, inside=()):
             if not isinstance(n, ast.AST) or isinstance(n, (ast.Lambda, ast.GeneratorExp, ast.ListComp, ast.SetComp, ast.DictComp)):
                 return n
             new = n.__class__()
+            each = _is_each(n)
             for fld, val in ast.iter_fields(n):
                 if isinstance(val, list):
-                    setattr(new, fld, [rec(x) for x in val])
+                    if each and fld == 'args':
+                        # the element of "each of IT" is created once per element of IT
+                        setattr(new, fld, [rec(val[0], inside + (norm(val[1]),)), rec(val[1], inside)])
+                    else:
+                        setattr(new, fld, [rec(x, inside) for x in val])
                 else:
-                    setattr(new, fld, rec(val))
+                    setattr(new, fld, rec(val, inside))
             for a in ('lineno', 'col_offset', 'end_lineno', 'end_col_offset', '_appended'):
                 if hasattr(n, a):
                     setattr(new, a, getattr(n, a))
             if isinstance(new, ast.Call) and isinstance(new.func, ast.Name) and new.func.id in classes:
                 tok = ast.Name(id='_obj%d' % self._ntok[0], ctx=ast.Load())
                 self._ntok[0] += 1
-                p.events.append(('create', tok.id, new, st, p.loops))
+                p.events.append(('create', tok.id, new, st, tuple(p.loops) + inside))
                 return tok
             return new
         visited = []
@@ -1149,6 +1158,12 @@ class SymExec:
                     p2.events.append(('call', v, st, p2.loops))
                 for t in st.targets:
                     self._assign(t, v, p2, st)
+                if len(st.targets) > 1 and isinstance(v, (ast.List, ast.Dict, ast.Set)):
+                    # `self.x = x = []`: the name is another name of the attribute's container
+                    attrs = [dotted(t) for t in st.targets if isinstance(t, ast.Attribute) and dotted(t)]
+                    for t in st.targets:
+                        if isinstance(t, ast.Name) and attrs:
+                            p2.env['_alias:' + t.id] = ast.parse(attrs[0], mode='eval').body
                 out.append(p2)
             return out
         if isinstance(st, ast.AnnAssign) and st.value is not None:
@@ -1209,6 +1224,11 @@ class SymExec:
                     p2.env = dict(p.env) if p2.env.keys() != p.env.keys() - {keep} else p2.env
                     if keep in p.env:
                         p2.env[keep] = p.env[keep]
+                    al = p.env.get('_alias:' + keep)
+                    if al is not None and isinstance(v, ast.Call) and isinstance(v.func, ast.Attribute) and \
+                       isinstance(v.func.value, ast.Name) and v.func.value.id == keep:
+                        # the call is recorded on the attribute the name stands for
+                        v = ast.Call(func=ast.Attribute(value=al, attr=v.func.attr, ctx=ast.Load()), args=v.args, keywords=v.keywords)
                 p2.calls.append((v, st))
                 p2.events.append(('call', v, st, p2.loops))
                 fn = st.value.func
